@@ -73,6 +73,124 @@ def reparse(kind, text, flags):
         return ("internal:" + type(e).__name__, repr(e)[:200])
 
 
+CONTEXT = {"Field", "FragmentSpread", "InlineFragment", "SelectionSet", "Directive", "Argument", "ObjectField", "VariableDefinition", "FieldDefinition", "InputValueDefinition",
+           "EnumValueDefinition", "OperationTypeDefinition", "Name"}
+_WRAPPED, _WRAPPED_SEEN = [], set()
+# members of type-system definitions: keyword of the enclosing definition, its class, the attribute holding the members
+TS_MEMBER = {"FieldDefinition": ("type", "ObjectTypeDefinition", "fields"),
+             "InputValueDefinition": ("input", "InputObjectTypeDefinition", "fields"),
+             "EnumValueDefinition": ("enum", "EnumTypeDefinition", "values")}
+
+
+def context_reparse(kind, piece, flags):
+    """parse() on the minimal context around `piece`; ('ok', wrapped, node dict, prefix length, True | what is odd) or
+    (error class, wrapped, ...). LF before the closing part: it ends nothing but satisfies every follow restriction."""
+    from py_gql.lang import parser as P
+    from py_gql.lang import ast as A
+    from py_gql.exc import GraphQLSyntaxError
+    if kind == "SelectionSet":
+        pre, post = "", ""
+    elif kind in ("Field", "FragmentSpread", "InlineFragment"):
+        pre, post = "{ ", "\n}"
+    elif kind == "Directive":
+        pre, post = "{ a ", "\n}"
+    elif kind == "Argument":
+        pre, post = "{ a(", "\n)}"
+    elif kind == "VariableDefinition":
+        pre, post = "query(", "\n){a}"
+    elif kind in TS_MEMBER:
+        pre, post = TS_MEMBER[kind][0] + " A {", "\n}"
+    elif kind == "OperationTypeDefinition":
+        pre, post = "schema {", "\n}"
+    elif kind == "Name":
+        pre, post = "{ ", "\n}"
+    else:
+        pre, post = "", "\nscalar A"
+    if kind == "ObjectField":
+        pre, post = "{ ", "\n}"
+    wrapped = pre + piece + post
+    try:
+        if kind == "ObjectField":               # through parse_value: the object literal whose only field is the node
+            v = P.parse_value(wrapped, **flags)
+            odd = True
+            if not (isinstance(v, A.ObjectValue) and len(v.fields) == 1 and v.loc == (0, len(wrapped))):
+                odd = "object"
+            return ("ok", wrapped, v.fields[0].to_dict(), len(pre), odd)
+        doc = P.parse(wrapped, **flags)
+    except GraphQLSyntaxError as e:
+        return ("syntax", wrapped, e.position)
+    except Exception as e:  # noqa
+        return ("internal:" + type(e).__name__, wrapped, repr(e)[:200])
+    odd = True
+    try:
+        if len(doc.definitions) != 1 or doc.loc != (0, len(wrapped)):
+            odd = "document"
+        d0 = doc.definitions[0]
+        if kind in TS_MEMBER:
+            kw, cls, attr = TS_MEMBER[kind]
+            members = getattr(d0, attr)
+            node = members[0]
+            if not (type(d0).__name__ == cls and d0.name.value == "A" and d0.name.loc == (len(kw) + 1, len(kw) + 2)
+                    and d0.description is None and not d0.directives and len(members) == 1 and d0.loc == (0, len(wrapped))
+                    and not getattr(d0, "interfaces", None)):
+                odd = cls
+            return ("ok", wrapped, node.to_dict(), len(pre), odd)
+        if kind == "OperationTypeDefinition":
+            node = d0.operation_types[0]
+            if not (isinstance(d0, A.SchemaDefinition) and len(d0.operation_types) == 1 and not d0.directives
+                    and d0.loc == (0, len(wrapped))):
+                odd = "schema"
+            return ("ok", wrapped, node.to_dict(), len(pre), odd)
+        if kind == "Name":
+            f = d0.selection_set.selections[0]
+            if not (isinstance(d0, A.OperationDefinition) and len(d0.selection_set.selections) == 1 and isinstance(f, A.Field)
+                    and f.alias is None and not f.arguments and not f.directives and f.selection_set is None
+                    and f.loc == f.name.loc and d0.loc == (0, len(wrapped))):
+                odd = "field"
+            return ("ok", wrapped, f.name.to_dict(), len(pre), odd)
+        if kind == "VariableDefinition":
+            node = d0.variable_definitions[0]
+            ss = d0.selection_set
+            n_ = len(wrapped)
+            if not (isinstance(d0, A.OperationDefinition) and d0.operation == "query" and d0.name is None
+                    and len(d0.variable_definitions) == 1 and not d0.directives and d0.loc == (0, n_)
+                    and ss.loc == (n_ - 3, n_) and len(ss.selections) == 1 and ss.selections[0].loc == (n_ - 2, n_ - 1)
+                    and ss.selections[0].name.value == "a"):
+                odd = "query"
+            return ("ok", wrapped, node.to_dict(), len(pre), odd)
+        if kind == "StringValue":
+            node = d0.description
+            if not (isinstance(d0, A.ScalarTypeDefinition) and d0.name.value == "A" and not d0.directives
+                    and d0.loc == (0, len(wrapped))):
+                odd = "scalar"
+        else:
+            ss = d0.selection_set
+            if not (isinstance(d0, A.OperationDefinition) and d0.operation == "query" and d0.name is None
+                    and not d0.variable_definitions and not d0.directives and ss.loc == (0, len(wrapped)) == d0.loc):
+                odd = "shorthand"
+            if kind == "SelectionSet":
+                node = ss
+            else:
+                if len(ss.selections) != 1:
+                    odd = "selections"
+                f = ss.selections[0]
+                if kind == "Directive":
+                    node = f.directives[0]
+                    if not (len(f.directives) == 1 and not f.arguments and f.alias is None and f.selection_set is None
+                            and f.name.value == "a" and f.name.loc == (2, 3) and f.loc == (2, 4 + len(piece))):
+                        odd = "field"
+                elif kind == "Argument":
+                    node = f.arguments[0]
+                    if not (len(f.arguments) == 1 and not f.directives and f.alias is None and f.selection_set is None
+                            and f.name.value == "a" and f.name.loc == (2, 3) and f.loc == (2, 6 + len(piece))):
+                        odd = "field"
+                else:
+                    node = f
+        return ("ok", wrapped, node.to_dict(), len(pre), odd)
+    except Exception as e:  # noqa  (the document does not have the expected shape at all)
+        return ("shape:" + type(e).__name__, wrapped, repr(e)[:200])
+
+
 def shift(d, off):
     if isinstance(d, dict):
         return {k: ((v[0] + off, v[1] + off) if k == "loc" and v is not None else shift(v, off)) for k, v in d.items()}
@@ -201,6 +319,31 @@ def check_tree(ctx, text, entry, flags, root, origin):
             ctx.fail("span-reparses-to-different-node:%s:%s" % (kind, cp.first_diff(cp.canon(want), cp.canon(shift(got, a)))),
                      "the text of a node's span parses back to a different node", det(n, piece=piece))
             ok = False
+        # ... and, for the node kinds without an entry point of their own, THROUGH THE PUBLIC `parse` ENTRY POINT inside the
+        # minimal context (Props/C02_reparse_ctx.lean: span_reparse_selection / _selection_set / _directive / _argument /
+        # _description): the wrapped text parses to a document containing an equal node modulo the offset of the context
+        if kind in CONTEXT or (kind == "StringValue" and flags.get("allow_type_system")):
+            cg = context_reparse(kind, piece, flags)
+            ctx.count()
+            ctx.stat("context-reparse=%s" % kind)
+            if cg[0] != "ok":
+                ctx.fail("context-reparse-fails:%s:%s" % (kind, cg[0].split(":")[0]),
+                         "the text of a node's span, wrapped in its minimal context, is not accepted by parse()",
+                         det(n, piece=piece, wrapped=cg[1], error=list(cg[2:])))
+                ok = False
+            elif shift(cg[2], a - cg[3]) != want:
+                ctx.fail("context-reparse-differs:%s:%s" % (kind, cp.first_diff(cp.canon(want), cp.canon(shift(cg[2], a - cg[3])))),
+                         "the text of a node's span, wrapped in its minimal context, parses to a document that does not "
+                         "contain an equal node (modulo the offset)", det(n, piece=piece, wrapped=cg[1]))
+                ok = False
+            elif cg[4] is True and kind != "ObjectField" and len(_WRAPPED) < 600 and (kind, cg[1]) not in _WRAPPED_SEEN:
+                _WRAPPED_SEEN.add((kind, cg[1]))
+                _WRAPPED.append((cg[1], flags, kind))       # also sent to the Lean lexer + parser at the end of the run
+            if cg[0] == "ok" and shift(cg[2], a - cg[3]) == want and cg[4] is not True:
+                ctx.fail("context-reparse-shape:%s:%s" % (kind, cg[4]),
+                         "the document parsed from the wrapped text is not the minimal context around the node",
+                         det(n, piece=piece, wrapped=cg[1]))
+                ok = False
         if len(kids) >= 1 or b - a >= 2:
             ctx.nontrivial((kind, piece))
     return ok
@@ -288,6 +431,31 @@ def run(ctx):
                 ctx.fail("corr:spec-check-failed:%s" % entry,
                          "compiled model output violates WF / yield / span specification", cp.detail(c, model=a.get("spec")),
                          kind="correspondence")
+    corr_wrapped(ctx)
+
+
+def corr_wrapped(ctx):
+    """the wrapped texts of the context oracle through the Lean lexer + parser (driver op parse_text): the instances of
+    span_reparse_selection / _directive / _argument / _description computed by the compiled model = what parse() returns"""
+    if not (_WRAPPED and cp.model_available(ctx)):
+        return
+    from corr import C01_lex as L
+    reqs = [dict(op="parse_text", entry="document", text=L.cps(w), **cp.flags_json(fl)) for w, fl, _ in _WRAPPED]
+    for (w, fl, kind), a in zip(_WRAPPED, ctx.driver.ask(reqs)):
+        ctx.count()
+        ctx.stat("context-model=%s" % kind)
+        r = cp.real_parse(w, "document", fl)
+        if r[0] != "ok":
+            continue
+        if "ok" not in a:
+            ctx.fail("corr:context-reparse:model-rejects:%s" % kind, "the Lean lexer+parser rejects a wrapped text parse() accepts",
+                     {"part": PART, "text": w, "entry": "document", "flags": fl, "model": str(a)[:300]}, kind="correspondence")
+        elif a["ok"] != cp.canon(r[1].to_dict()):
+            ctx.fail("corr:context-reparse:ast-differs:%s:%s" % (kind, cp.first_diff(cp.canon(r[1].to_dict()), a["ok"])),
+                     "the Lean lexer+parser and parse() return different trees for a wrapped text",
+                     {"part": PART, "text": w, "entry": "document", "flags": fl}, kind="correspondence")
+    del _WRAPPED[:]
+    _WRAPPED_SEEN.clear()
 
 
 def replay(ctx, data):
